@@ -10,6 +10,8 @@ use crate::wf::*;
 use scnr::ScannerModeSwitcher;
 use serde_json::{json, Value};
 use std::collections::HashSet;
+use std::sync::atomic::{AtomicBool, Ordering};
+use std::sync::Mutex;
 
 // ------------------------------------------------------------------------------------------------
 // C13
@@ -183,7 +185,7 @@ fn probe_streams(s: &scnr::Scanner, n_modes: usize, inputs: &[String]) -> Result
 }
 
 pub fn c13_case(rng: &mut Rng, _i: u64, st: &mut Stats) -> CaseOutcome {
-    let mut p = GenParams::default();
+    let mut p = GenParams::varied(rng);
     p.max_nodes = 7;
     let mut base = gen_multi_mode(rng, &p, 30, 3);
     // larger modes now and then (up to 9 patterns)
@@ -758,6 +760,132 @@ pub fn c14_round(rng: &mut Rng, round: u64, st: &mut Stats, progress: &std::sync
     CaseOutcome::Ok
 }
 
+/// Churn round: a few threads hammer `build()` hits on hot configurations in a tight loop while
+/// others feed the cache a stream of never-seen configurations (cheap to compile), several hundred
+/// per thread: the cache grows by thousands of entries under contention (growth, rehashing and any
+/// bound or eviction happen while hits are in flight). Same oracle as the rounds: sequential tables.
+pub fn c14_churn_case(rng: &mut Rng, index: u64, st: &mut Stats) -> CaseOutcome {
+    let mut p = GenParams::default();
+    p.max_nodes = 6;
+    let n_hot = rng.range(2, 4);
+    let mut hot: Vec<ScannerCfg> = Vec::new();
+    let mut guard = 0;
+    while hot.len() < n_hot && guard < 50 {
+        guard += 1;
+        let mut c = gen_multi_mode(rng, &p, 20, 2);
+        c.modes[0].name = format!("HOT_{}_{}", index, hot.len());
+        if c.all_res().iter().all(|r| print_parse_roundtrip_ok(r)) && c.build_uncached().is_ok() {
+            hot.push(c);
+        }
+    }
+    if hot.is_empty() {
+        return CaseOutcome::Skipped;
+    }
+    let inputs: Vec<String> = hot.iter().map(|c| gen_input(rng, &c.all_res(), &p.letters, 20)).collect();
+    let mut table: Vec<Vec<Tok>> = Vec::new();
+    for (c, i) in hot.iter().zip(inputs.iter()) {
+        let s = match c.build_uncached() {
+            Ok(s) => s,
+            Err(e) => return CaseOutcome::Violated(Violation::new(format!("sequential build_uncached failed: {}", e), json!({"kind": "c14", "cfg": c}))),
+        };
+        match scan_all(&s, i, 0, 0) {
+            Ok(t) => table.push(t),
+            Err(e) => return CaseOutcome::Violated(Violation::new(format!("sequential scan failed: {}", e), json!({"kind": "c14", "cfg": c}))),
+        }
+    }
+    let n_hit = *rng.pick(&[2usize, 4, 8]);
+    let n_miss = *rng.pick(&[1usize, 2, 4]);
+    let scale = std::env::var("VERIF_SCALE").ok().and_then(|s| s.parse::<u64>().ok()).unwrap_or(100).clamp(1, 100) as usize;
+    let hits_per_thread = 2_000 * scale / 100 + 20;
+    let misses_per_thread = 500 * scale / 100 + 5;
+    let failures: Mutex<Vec<String>> = Mutex::new(Vec::new());
+    let barrier = std::sync::Barrier::new(n_hit + n_miss);
+    let failed = AtomicBool::new(false);
+    std::thread::scope(|s| {
+        for t in 0..n_hit {
+            let (hot, inputs, table, failures, barrier, failed) = (&hot, &inputs, &table, &failures, &barrier, &failed);
+            s.spawn(move || {
+                barrier.wait();
+                for j in 0..hits_per_thread {
+                    if failed.load(Ordering::Relaxed) {
+                        break;
+                    }
+                    let k = (j + t) % hot.len();
+                    let r = sut(|| hot[k].build_cached());
+                    let msg = match r {
+                        Err(pm) => Some(format!("hit thread {} iteration {}: build() of a cached configuration panicked: {}", t, j, pm)),
+                        Ok(Err(e)) => Some(format!("hit thread {} iteration {}: build() of a valid configuration failed: {}", t, j, e)),
+                        Ok(Ok(sc)) => {
+                            if j % 8 == 0 {
+                                match scan_all(&sc, &inputs[k], 0, 0) {
+                                    Ok(got) if got == table[k] => None,
+                                    Ok(got) => Some(format!("hit thread {} iteration {}: hot configuration {} scans as {:?}, sequentially {:?}", t, j, k, got, table[k])),
+                                    Err(e) => Some(format!("hit thread {} iteration {}: {}", t, j, e)),
+                                }
+                            } else if sc.mode_name(0) != Some(hot[k].modes[0].name.as_str()) {
+                                Some(format!("hit thread {} iteration {}: build() returned a scanner whose mode 0 is {:?}, expected {:?}", t, j, sc.mode_name(0), hot[k].modes[0].name))
+                            } else {
+                                None
+                            }
+                        }
+                    };
+                    if let Some(m) = msg {
+                        failed.store(true, Ordering::Relaxed);
+                        failures.lock().unwrap().push(m);
+                        break;
+                    }
+                }
+            });
+        }
+        for t in 0..n_miss {
+            let (failures, barrier, failed) = (&failures, &barrier, &failed);
+            s.spawn(move || {
+                barrier.wait();
+                for j in 0..misses_per_thread {
+                    if failed.load(Ordering::Relaxed) {
+                        break;
+                    }
+                    let kw = format!("q{}x{}x{}", index, t, j);
+                    let tt = 3 + j;
+                    let mode = scnr::ScannerMode::new("COLD", vec![scnr::Pattern::new(kw.clone(), tt)], Vec::<(usize, usize)>::new());
+                    let r = sut(|| scnr::ScannerBuilder::new().add_scanner_mode(mode).build());
+                    let msg = match r {
+                        Err(pm) => Some(format!("miss thread {} iteration {}: build() of a new configuration panicked: {}", t, j, pm)),
+                        Ok(Err(e)) => Some(format!("miss thread {} iteration {}: build() of a valid configuration failed: {}", t, j, e)),
+                        Ok(Ok(sc)) => match scan_all(&sc, &kw, 0, 0) {
+                            Ok(got) if got == vec![Tok { tt, start: 0, end: kw.len() }] => None,
+                            Ok(got) => Some(format!("miss thread {} iteration {}: the scanner built for keyword {:?} (type {}) scans it as {:?}", t, j, kw, tt, got)),
+                            Err(e) => Some(format!("miss thread {} iteration {}: {}", t, j, e)),
+                        },
+                    };
+                    if let Some(m) = msg {
+                        failed.store(true, Ordering::Relaxed);
+                        failures.lock().unwrap().push(m);
+                        break;
+                    }
+                }
+            });
+        }
+    });
+    #[cfg(feature = "hooks")]
+    {
+        scnr::verif_hooks::cache_log_take();
+    }
+    st.count("churn_rounds");
+    st.add("churn_hits", (n_hit * hits_per_thread) as u64);
+    st.add("churn_misses_with_new_configurations", (n_miss * misses_per_thread) as u64);
+    st.add("threads_started", (n_hit + n_miss) as u64);
+    let f = failures.into_inner().unwrap();
+    if let Some(first) = f.first() {
+        return CaseOutcome::Violated(Violation::new(
+            first.clone(),
+            json!({"kind": "c14", "churn_round": index, "hit_threads": n_hit, "miss_threads": n_miss, "hot": hot.iter().map(|c| c.describe()).collect::<Vec<_>>(), "all_failures": f}),
+        ));
+    }
+    st.nontrivial(hash_of(&(index, n_hit, n_miss, 0xC4u8)));
+    CaseOutcome::Ok
+}
+
 /// One round as a worker-process case.
 pub fn c14_case(rng: &mut Rng, i: u64, st: &mut Stats) -> CaseOutcome {
     let progress = std::sync::atomic::AtomicU64::new(0);
@@ -777,14 +905,19 @@ pub fn c14(tier: Tier) -> i32 {
     wctx.threads = 3;
     wctx.start = ctx.start;
     let mut res = run_cases_subprocess_with_timeout(&wctx, 1, rounds, 10, Some(120));
+    // stream 2: churn rounds (cache growth by thousands of entries under contention)
+    let churn = ctx.scale(36, 1_500);
+    res.merge(run_cases_subprocess_with_timeout(&wctx, 2, churn, 3, Some(120)));
     // Send + Sync probe result is reported by the driver (it is a build-time observation)
     if let Ok(p) = std::env::var("VERIF_SEND_SYNC_PROBE") {
         res.stats.add(&format!("send_sync_probe_{}", p), 1);
     }
     let report = Report::new(
-        "rounds of 2-16 threads started at a barrier; each thread runs 10-40 operations drawn from: build() of hot keys shared by all threads, of cold keys unique to the round and of failing keys; build_uncached(); complete scans on one shared Scanner; scans on the shared Scanner interrupted by a yield; with yields and 50 us sleeps injected between operations. Every result is compared with a table computed single-threaded with build_uncached() beforehand (token streams on probe inputs in every mode; Ok/Err). Hook H3 records the order in which the cache lock was taken: distinct_nontrivial counts the distinct shapes of 8 consecutive lock acquisitions that involve at least two threads (thread identities renamed in order of first occurrence, with the hit/miss pattern). Rounds run in worker processes of 10 rounds each: a worker killed by a signal (memory corruption) is attributed to the round it was running, and a worker that completes nothing for 120 s with all its tasks blocked in a futex wait is reported as a deadlock (otherwise a slow worker is inconclusive). Scanner: Send + Sync is a compile-time probe built by the driver (/verif/probe_send_sync, a separate crate). Thorough adds ThreadSanitizer and Miri runs of the same workload.",
+        "stream 2 (churn): 2-8 threads repeat build() of 2-4 hot configurations in a tight loop (2000 times each, every 8th result scanned and compared) while 1-4 threads build 500 never-seen configurations each, so that the cache grows by thousands of entries while hits are in flight; three rounds per worker process. stream 1: rounds of 2-16 (one in eleven: 33) threads started at a barrier; each thread runs 10-40 operations drawn from: build() of hot keys shared by all threads, of cold keys unique to the round and of failing keys; build_uncached(); complete scans on one shared Scanner; scans on the shared Scanner interrupted by a yield; with yields and 50 us sleeps injected between operations. Every result is compared with a table computed single-threaded with build_uncached() beforehand (token streams on probe inputs in every mode; Ok/Err). Hook H3 records the order in which the cache lock was taken: distinct_nontrivial counts the distinct shapes of 8 consecutive lock acquisitions that involve at least two threads (thread identities renamed in order of first occurrence, with the hit/miss pattern). Rounds run in worker processes of 10 rounds each: a worker killed by a signal (memory corruption) is attributed to the round it was running, and a worker that completes nothing for 120 s with all its tasks blocked in a futex wait is reported as a deadlock (otherwise a slow worker is inconclusive). Scanner: Send + Sync is a compile-time probe built by the driver (/verif/probe_send_sync, a separate crate). Thorough adds ThreadSanitizer and Miri runs of the same workload.",
     )
     .floor("rounds", 200)
+    .floor("churn_rounds", 20)
+    .floor("churn_misses_with_new_configurations", 10_000)
     .floor("concurrent_ops", 20_000)
     .floor("cached_builds", 5_000)
     .floor("failing_builds_under_contention", 100)
